@@ -49,7 +49,7 @@ func funcKey(f *ssa.Function) string {
 
 func ifaceMethodKey(recv types.Type, m *types.Func) string {
 	rt := types.Unalias(recv)
-	if n, ok := rt.(*types.Named); ok {
+	if n, ok := rt.(*types.Named); ok && n.Obj().Pkg() != nil {
 		return fmt.Sprintf("%s.%s.%s", n.Obj().Pkg().Path(), n.Obj().Name(), m.Name())
 	}
 	if m.Pkg() != nil {
@@ -70,6 +70,10 @@ func (ex *Exec) call(in ssa.Instruction, c *ssa.CallCommon) Val {
 		recv := ex.val(c.Value)
 		ex.oblige("nil", ex.curPC, fmt.Sprintf("(not (= (i_tag %s) 0))", recv.E), pos, "invoke on nil interface")
 		key, fc := ex.eng.ifaceContract(c.Value.Type(), c.Method)
+		if r := ex.root(); r.fc != nil && r.usesScratch {
+			// the unknown implementation could be (or call) a function that sets the same scratch ghost
+			ex.eng.errorf("%s: %s uses a scratch ghost and calls an interface method (%s)", ex.position(pos), r.key, key)
+		}
 		if fc == nil {
 			ex.eng.missing(key, ex.position(pos))
 			return ex.havocResult(rt)
